@@ -416,4 +416,82 @@ example : |moment 4 - 2 / ((4 : ℕ) + 1 : ℚ)| ≤ 1 / 10 ^ 16 := quad5_moment
 
 end Small
 
+section Review2
+open Polynomial
+local instance instTranscRatC07V2 : Transc ℚ := ⟨id, id, id, fun a _ => a, id, id, id, abs, id, id⟩
+local instance instHasNaNRatC07V2 : HasNaN ℚ := ⟨fun _ => false, 0⟩
+private theorem habsQ2 : ∀ x : ℚ, Transc.abs x = |x| := fun _ => rfl
+
+theorem w_eq_w3 : w = w3 := rfl
+
+/-- **Non-additivity at a positive tolerance, all three runs in one statement**: on `[0,1]`, `eps = 10⁻³`,
+5 levels, `romberg(1 + x⁶/100) = 7691/7680`, `romberg(x⁶) = 1/7`, `romberg(their sum) = 801/700`, and
+`7691/7680 + 1/7 ≠ 801/700`. -/
+theorem romberg_not_additive :
+    ∃ v1 v2 v3 : ℚ, romberg w3 0 1 (1 / 1000) 5 = some v1 ∧ romberg g6 0 1 (1 / 1000) 5 = some v2 ∧
+      romberg (fun x => w3 x + g6 x) 0 1 (1 / 1000) 5 = some v3 ∧ v1 + v2 ≠ v3 := by
+  refine ⟨_, _, _, ?_, romberg_not_additive_witness.1, romberg_not_additive_witness.2.1,
+    romberg_not_additive_witness.2.2⟩
+  rw [← w_eq_w3]; exact romberg_early_exit_witness.1
+
+/-- `romberg_stop_level` instantiated at `eps > 0`. -/
+example : ∃ s, s < 5 ∧ romberg w 0 1 (1 / 1000) 5 = some (R w 0 1 s s) ∧
+      ((s = 5 - 1 ∧ ∀ j, 2 ≤ j → j < 5 → stopAt w 0 1 (1 / 1000) j = false) ∨
+       (2 ≤ s ∧ stopAt w 0 1 (1 / 1000) s = true ∧ ∀ j, 2 ≤ j → j < s → stopAt w 0 1 (1 / 1000) j = false)) :=
+  romberg_stop_level w 0 1 (1 / 1000) 5 (by norm_num) (by norm_num)
+
+/-- `romberg_swap_any`, `romberg_self_any` at `eps > 0` on the witness integrand, `a > b` and `a = b`. -/
+example : romberg w 1 0 (1 / 1000) 5 = some (-(7691 / 7680)) := by
+  rw [romberg_swap_any habsQ2 w 0 1 (1 / 1000) 5, romberg_early_exit_witness.1]; rfl
+example : romberg w 3 3 (1 / 1000) 5 = some 0 :=
+  romberg_self_any w 3 (1 / 1000) 5 (by norm_num) (by norm_num)
+
+/-- `romberg_exact_at_stop_level` on the witness: the stop level is `s = 2`, so the premise
+`natDegree ≤ 2s + 2 = 6` fails for the degree-7 antiderivative — consistent with the inexact result. -/
+example : ∃ s, s < 5 ∧ ((X + C (1 / 700) * X ^ 7 : ℚ[X]).natDegree ≤ 2 * s + 2 →
+    romberg (fun x => (derivative (X + C (1 / 700) * X ^ 7 : ℚ[X])).eval x) 0 1 (1 / 1000) 5
+      = some ((X + C (1 / 700) * X ^ 7 : ℚ[X]).eval 1 - (X + C (1 / 700) * X ^ 7 : ℚ[X]).eval 0)) := by
+  obtain ⟨s, hs, _, _, hex⟩ := romberg_exact_at_stop_level (X + C (1 / 700) * X ^ 7 : ℚ[X]) 0 1 (1 / 1000) 5
+    (by norm_num) (by norm_num)
+  exact ⟨s, hs, hex⟩
+
+/-- `romberg_exact_of_no_stop` at `eps > 0`: `x⁴`, 3 levels, `eps = 10⁻¹⁰` (no test fires, degree 4 ≤ 5). -/
+theorem R44_11 : R (fun x : ℚ => x ^ 4) 0 1 1 1 = 5 / 24 := by
+  simp [R, rich, col0, hN, Finset.sum_range_succ]; norm_num
+theorem R44_22 : R (fun x : ℚ => x ^ 4) 0 1 2 2 = 1 / 5 := by
+  simp [R, rich, col0, hN, Finset.sum_range_succ]; norm_num
+theorem stop44 : stopAt (fun x : ℚ => x ^ 4) 0 1 (1 / 10000000000) 2 = false := by
+  have hn : ∀ x : ℚ, HasNaN.isNaN x = false := fun _ => rfl
+  simp only [stopAt, R44_22, show 2 - 1 = 1 from rfl, R44_11, rombergStop, fminG, habsQ2]
+  rw [show |(1 / 5 - 5 / 24 : ℚ)| = 1 / 120 by norm_num [abs_of_neg],
+    show |(1 / 5 : ℚ)| = 1 / 5 from abs_of_pos (by norm_num),
+    show |(5 / 24 : ℚ)| = 5 / 24 from abs_of_pos (by norm_num)]
+  simp only [hn, Bool.false_eq_true, if_false]
+  norm_num
+example : romberg (fun x : ℚ => x ^ 4) 0 1 (1 / 10000000000) 3 = some (1 / 5) := by
+  have hP : (fun x : ℚ => (derivative (C (1 / 5) * X ^ 5 : ℚ[X])).eval x) = fun x => x ^ 4 := by
+    funext x; simp; ring
+  have := romberg_exact_of_no_stop (C (1 / 5) * X ^ 5 : ℚ[X]) 0 1 (1 / 10000000000) 3 (by norm_num) (by norm_num)
+    (by
+      have h : (C (1 / 5) * X ^ 5 : ℚ[X]).natDegree ≤ 6 := by compute_degree <;> norm_num
+      exact h)
+    (by
+      intro j h2 h3
+      have : j = 2 := by omega
+      subst this; rw [hP]; exact stop44)
+  rw [hP] at this; rw [this]; norm_num
+
+/-- `trapezoid_eq_integral_pwl` / `panelSum_eq_integral_pwl` on `x = [0,1,3]`, `y = [1,2,0]`: value `7/2`. -/
+example : trapezoid ([1, 2, 0] : List ℝ) (some [0, 1, 3]) none
+    = some (∫ t in (0:ℝ)..3, pwl [1, 2, 0] [0, 1, 3] t) := by
+  have := trapezoid_eq_integral_pwl ([1, 2, 0] : List ℝ) [0, 1, 3] rfl (by simp) (by simp)
+  simpa using this
+example : (∫ t in (0:ℝ)..3, pwl [1, 2, 0] [0, 1, 3] t) = 7 / 2 := by
+  have := panelSum_eq_integral_pwl ([1, 2, 0] : List ℝ) [0, 1, 3] rfl (by simp) (by simp)
+  simp only [List.head_cons, List.getLast_cons_cons, List.getLast_singleton] at this
+  rw [← this]; norm_num [panelSum]
+example : pwl [1, 2, 0] [0, 1, 3] (2 : ℝ) = 1 := by norm_num [pwl, lin]
+
+end Review2
+
 end Cv.C07V
